@@ -24,10 +24,13 @@ import (
 	"testing"
 	"time"
 
+	"github.com/prometheus/prometheus/model/histogram"
 	"github.com/prometheus/prometheus/model/labels"
 	"github.com/prometheus/prometheus/promql"
 	"github.com/prometheus/prometheus/promql/parser"
 	"github.com/prometheus/prometheus/storage"
+	"github.com/prometheus/prometheus/tsdb/chunkenc"
+	"github.com/prometheus/prometheus/tsdb/chunks"
 	"github.com/prometheus/prometheus/util/annotations"
 	"github.com/weaveworks/common/user"
 
@@ -107,15 +110,11 @@ func (q memQuerier) Select(_ context.Context, _ bool, _ *storage.SelectHints, ms
 		if !ok || !sm.MatchesLabels(l) {
 			continue
 		}
-		var ts []int64
-		var vs []float64
+		var smp []chunks.Sample
 		for k := 0; k < 6; k++ {
-			ts = append(ts, t0+int64(k)*step)
-			vs = append(vs, val(i, k))
+			smp = append(smp, fsample{t0 + int64(k)*step, val(i, k)})
 		}
-		var kv []string
-		l.Range(func(x labels.Label) { kv = append(kv, x.Name, x.Value) })
-		out = append(out, storage.MockSeries(ts, vs, kv))
+		out = append(out, storage.NewListSeries(l, smp))
 	}
 	sort.Slice(out, func(i, j int) bool { return labels.Compare(out[i].Labels(), out[j].Labels()) < 0 })
 	return &sliceSet{s: out, i: -1}
@@ -127,6 +126,18 @@ func (memQuerier) LabelNames(context.Context, *storage.LabelHints, ...*labels.Ma
 	return nil, nil, nil
 }
 func (memQuerier) Close() error { return nil }
+
+type fsample struct {
+	t int64
+	f float64
+}
+
+func (s fsample) T() int64                      { return s.t }
+func (s fsample) F() float64                    { return s.f }
+func (s fsample) H() *histogram.Histogram       { return nil }
+func (s fsample) FH() *histogram.FloatHistogram { return nil }
+func (s fsample) Type() chunkenc.ValueType      { return chunkenc.ValFloat }
+func (s fsample) Copy() chunks.Sample           { return s }
 
 type sliceSet struct {
 	s []storage.Series
